@@ -1074,7 +1074,7 @@ pub fn run(ctx: &mut Ctx, mode: DMode) -> RunResult {
             for node in [&w.srv.c, &w.cli.c] {
                 transcript::check(ctx, node)?;
             }
-            for now in [w.cli.c.clock.node_time(ctx.now_ns) / 1_000_000, w.srv.c.clock.node_time(ctx.now_ns) / 1_000_000] {
+            for now in [w.cli.c.clock.uptime_ms(ctx.now_ns), w.srv.c.clock.uptime_ms(ctx.now_ns)] {
                 if now >= 1 << 24 {
                     ctx.probe("d.uptime_past_2^24ms");
                 }
